@@ -195,6 +195,26 @@ def run_engine(ck, tier, seed, pids, with_passloop=False):
     if h.summary:
         ck.traces += h.summary["cases"]
         ck.extra.setdefault("impl", {})["gdl_all_dirs"] = dict(h.summary["extra"], passes_counted=h.summary.get("passes_counted"))
+    # (d) shipped fonts with their metrics tables (head, hhea, maxp, hmtx, loca) rewritten to boundary values: whatever of
+    #     them the library accepts must still give well-formed segments, with and without a sized font
+    from checks import c01
+    rngd = random.Random(seed + 5)
+    mcases = []
+    for fn in ("Padauk.ttf", "charis_r_gr.ttf", "Scheherazadegr.ttf"):
+        for c in c01.rewrite_cases(os.path.join(corpus.F, fn), rngd, 8 if q else 14, fn):
+            pt = c.get("patches")
+            if pt and all(x[0] in ("head", "hhea", "maxp", "hmtx", "loca") for x in pt):
+                mcases.append(c)
+        for upem in (0, 1, 15, 16, 16384, 16385, 65535):       # the em size divides every scaled position
+            mcases.append({"id": "%s:head.unitsPerEm=%d" % (fn, upem), "font": os.path.join(corpus.F, fn), "patches": [["head", 18, 2, upem]], "opts": [0, 7]})
+    mf = os.path.join(tmp, "metric_cases.ndjson")
+    open(mf, "w").write("\n".join(json.dumps(c) for c in mcases) + "\n")
+    h = vlib.run_harness(exe, ["loadfont", mf], timeout=6000, env={"GRV_MAXFAIL": "2000"})
+    for p in pids:
+        vlib.absorb(ck, h, pid=p)
+    if h.summary:
+        ck.traces += h.summary["extra"]["loads"]
+        ck.extra.setdefault("impl", {})["rewritten_metrics_tables"] = dict(h.summary["extra"], cases=len(mcases))
     # (c) corpus under all direction values, two sizes, two option sets
     js = []
     for d in range(8):
